@@ -83,7 +83,7 @@ func c10RunHistory(w *c10World, h c10History) (map[string]bool, *c10Viol, error)
 	now := time.Duration(0)                // virtual clock
 	sessions := map[string]time.Duration{} // detector: tag -> virtual instant the session lapses
 	var log []string
-	arrivals := 0
+	arrivals, reloads := 0, 0
 
 	absorb := func() (*c10Viol, error) {
 		for _, p := range w.srv.Take() {
@@ -155,6 +155,31 @@ func c10RunHistory(w *c10World, h c10History) (map[string]bool, *c10Viol, error)
 		case "sweep":
 			e.rm.RemoveOldRegistrations()
 			log = append(log, fmt.Sprintf("t=%v sweep", now))
+		case "reload-same", "reload-blocklist", "reload-other":
+			// SIGHUP: a freshly parsed configuration is handed to OnReload. The station keeps every
+			// tracked registration across a reload, so the detector must keep its sessions too.
+			cur := e.rm.RegConfig
+			nc := &RegConfig{EnableIPv4: cur.EnableIPv4, EnableIPv6: cur.EnableIPv6,
+				PhantomBlocklist:       append([]string(nil), cur.PhantomBlocklist...),
+				CovertBlocklistSubnets: append([]string(nil), cur.CovertBlocklistSubnets...),
+				CovertAllowlistSubnets: append([]string(nil), cur.CovertAllowlistSubnets...)}
+			switch o.Kind {
+			case "reload-blocklist":
+				reloads++
+				nc.PhantomBlocklist = append(nc.PhantomBlocklist, fmt.Sprintf("203.0.113.%d/32", reloads)) // no phantom lives there
+			case "reload-other":
+				reloads++
+				nc.CovertBlocklistSubnets = append(nc.CovertBlocklistSubnets, fmt.Sprintf("233.252.0.%d/32", reloads))
+			}
+			nc.ParseBlocklists()
+			vSubnetMu.Lock()
+			e.rm.OnReload(nc)
+			vSubnetMu.Unlock()
+			cl["history:"+o.Kind] = true
+			if len(e.validRegs()) > 0 {
+				cl["history:reload-with-registrations"] = true
+			}
+			log = append(log, fmt.Sprintf("t=%v %s", now, o.Kind))
 		case "sweep-arrival":
 			// A registration arrives DURING the sweep: at the debug line the sweeper writes between
 			// collecting the expired set (under the read lock) and acting on it. The sweeper gets
@@ -246,7 +271,7 @@ func c10HistoryCheck(t vh.Fataler, rec *vh.Rec, w *c10World, h c10History) {
 // c10EnumHistories: every short history over a 7-symbol alphabet (part of the `lifetimes` sub-check).
 func c10EnumHistories(t *testing.T, rec *vh.Rec, w *c10World) {
 	alpha := []c10HOp{{Kind: "ingest"}, {Kind: "active"}, {Kind: "adv", DeltaS: 5 * 60}, {Kind: "adv", DeltaS: 7 * 60},
-		{Kind: "adv", DeltaS: 2*3600 + 59*60}, {Kind: "adv", DeltaS: 3*3600 + 5*60}, {Kind: "sweep"}, {Kind: "sweep-arrival"}}
+		{Kind: "adv", DeltaS: 2*3600 + 59*60}, {Kind: "adv", DeltaS: 3*3600 + 5*60}, {Kind: "sweep"}, {Kind: "sweep-arrival"}, {Kind: "reload-blocklist"}}
 	maxLen := vh.Pick(4, 5)
 	idx := 0
 	var gen func(prefix []c10HOp)
@@ -286,7 +311,7 @@ func c10GenHistory(rt *rapid.T) c10History {
 	n := rapid.IntRange(1, 14).Draw(rt, "n")
 	ops := []c10HOp{{Kind: "ingest"}}
 	for i := 0; i < n; i++ {
-		k := rapid.SampledFrom([]string{"adv", "ingest", "sweep", "active", "adv", "ingest", "sweep", "adv", "active", "adv", "sweep-arrival"}).Draw(rt, "kind")
+		k := rapid.SampledFrom([]string{"adv", "ingest", "sweep", "active", "adv", "ingest", "sweep", "adv", "active", "adv", "sweep-arrival", "reload-same", "reload-blocklist", "reload-other"}).Draw(rt, "kind")
 		o := c10HOp{Kind: k}
 		if k == "adv" {
 			o.DeltaS = rapid.SampledFrom(deltas).Draw(rt, "delta")
@@ -299,9 +324,9 @@ func c10GenHistory(rt *rapid.T) c10History {
 
 // TestVerif_C10_histories: generated messages x generated histories.
 func TestVerif_C10_histories(t *testing.T) {
-	rec := vh.NewRec("C10", "histories", "messages from C07's generator biased towards admission x histories [ingest] + 1-14 operations from {ingest the same message again, connection arrives (lookup, MarkActive, real Proxy with an unreachable covert), advance time by 1 min .. 6 h 2 min, sweep, sweep during which another registration arrives and is validated} + [sweep], through the real ingest path with the real sendToDetector publishing to the in-process RESP server. The detector's session table is modelled from the announcements actually published (timeout_ns counted from the moment each was published, the longer one kept). At every sweep point a registration the station still hands out must have a live session there (60 s slack): the station never accepts a registration for longer than it asked the detector to forward it. Non-trivial: the history re-delivers a registration that is still tracked, or marks one used. Distinct = (message, history).")
+	rec := vh.NewRec("C10", "histories", "messages from C07's generator biased towards admission x histories [ingest] + 1-14 operations from {ingest the same message again, connection arrives (lookup, MarkActive, real Proxy with an unreachable covert), advance time by 1 min .. 6 h 2 min, sweep, sweep during which another registration arrives and is validated, configuration reload through OnReload (unchanged / phantom_blocklist changed / other keys changed)} + [sweep], through the real ingest path with the real sendToDetector publishing to the in-process RESP server. The detector's session table is modelled from the announcements actually published (timeout_ns counted from the moment each was published, the longer one kept). At every sweep point a registration the station still hands out must have a live session there (60 s slack): the station never accepts a registration for longer than it asked the detector to forward it. Non-trivial: the history re-delivers a registration that is still tracked, or marks one used. Distinct = (message, history).")
 	defer rec.Flush()
-	rec.Require("history:duplicate-ingest", "history:sweep-past-detector-lifetime", "history:used", "history:still-served-and-forwarded", "history:re-ingest-after-expiry", "history:arrival-during-sweep-admitted")
+	rec.Require("history:duplicate-ingest", "history:sweep-past-detector-lifetime", "history:used", "history:still-served-and-forwarded", "history:re-ingest-after-expiry", "history:arrival-during-sweep-admitted", "history:reload-same", "history:reload-blocklist", "history:reload-other", "history:reload-with-registrations")
 	w := c10NewWorld(t, rec)
 	if p := vh.ReplayFile(); p != "" {
 		var h c10History
